@@ -1,12 +1,15 @@
 SPECIFICATION Spec
 CONSTANTS
-  MaxTop = 4
+  MaxTop = 3
   MaxBlocks = 2
   MaxSubs = 2
   MaxStmts = 2
-  MaxNotes = 2
+  MaxNotes = 1
   MaxDirs = 1
+  MaxNons = 1
   WordCounts = {1}
+  GenBlockTypes = {"c", "i"}
+  Rich = FALSE
   Phased = FALSE
 INVARIANT WellFormed
 CHECK_DEADLOCK FALSE
